@@ -47,8 +47,15 @@ def multi(tier, props_doc=True):
 
 def jobs(prop, tier):
     q = tier == "quick"
-    if prop in ("C01", "C02", "C15"):
+    if prop in ("C01", "C02"):
         return multi(tier)
+    if prop == "C15":
+        # identifiers also over histories with failing calls, rollbacks (aborted transactions) and remote deliveries
+        extra = ([E("list_tx_edge", "list", 2, rate=0.2), E("map_txb_edge", "map", 2, rate=0.1), S("map_tx_sim", "map", 3, 40, 40),
+                  S("list_tx_sim", "list", 3, 40, 40), S("doc_tx_sim", "doc", 3, 30, 40)] if q else
+                 [E("list_tx_edge", "list", 2), E("map_txb_edge", "map", 2), S("map_tx_sim", "map", 3, 400, 50),
+                  S("list_tx_sim", "list", 3, 400, 50), S("doc_tx_sim", "doc", 3, 300, 50), S("counter_tx_sim", "counter", 3, 200, 50)])
+        return multi(tier) + extra
     if prop == "C05":
         if q:
             return [SE("sync_basic_edge", 2, rate=0.1), SE("sync_sc_edge", 2, rate=0.1), SE("sync_3_edge", 3, rate=0.005),
